@@ -580,6 +580,34 @@ end
 
 end eval
 
+/-! ### `MassActionEq.equilibrium_equation` (thermodynamics/expressions.py l.13-35) -/
+
+section equilibrium
+variable [Add α] [Sub α] [Mul α] [Div α] [Neg α] [NatCast α] [PyNum α]
+
+/-- `MassActionEq.active_conc_prod`: `result = None`; over the products with exponent `+v`, then the reactants with exponent `−v`:
+`result = variables[k] ** e` the first time, `result *= variables[k] ** e` afterwards -/
+def eqConcProd (ctx : Ctx α) : List (String × Int) → Option α → Except Err (Option α)
+  | [], acc => .ok acc
+  | (k, e) :: rest, acc => do
+      let c ← ctx.get k
+      let p ← PyNum.pow c (Num.ofInt e)
+      eqConcProd ctx rest (some (match acc with | none => p | some a => a * p))
+
+/-- the signed exponents in the order of the code: products first, then reactants -/
+def eqExponents (prod reac : List (String × Int)) : List (String × Int) :=
+  prod ++ reac.map (fun p => (p.1, -p.2))
+
+/-- `self.equilibrium_equation(variables, equilibrium=eq)` = `eq_const − active_conc_prod` for an instance `v` of `MassActionEq` /
+`GibbsEqConst` (whose `__call__` is `eq_const`); an equilibrium without any substance gives `K − None`: `TypeError` -/
+def equilibriumEquation (ctx : Ctx α) (v : Val α) (prod reac : List (String × Int)) : Except Err α := do
+  let k ← eval ctx v
+  match ← eqConcProd ctx (eqExponents prod reac) none with
+  | some q => pure (k - q)
+  | none => throw Err.typeError
+
+end equilibrium
+
 /-! ### `ArrheniusParam.as_RateExpr`, `EyringParam.as_RateExpr` (hand-modelled structure; the numbers `Ea / R`,
 `kB/h · exp(dS/R)`, `dH / R` come from the generated `Gen/FnRateConst.lean`) -/
 
